@@ -35,6 +35,13 @@ mod verif_witness {
         assert_eq!(mtime(&f), t0, "identical bytes were rewritten through the writer");
         w.persist_if_changed(&f, b"fn main() { }").unwrap();
         assert_ne!(mtime(&f), t0); assert_eq!(std::fs::read(&f).unwrap(), b"fn main() { }");
+        // shrinking content: nothing of the old file may survive, and the next run is a no-op again
+        w.persist_if_changed(&f, b"fn m(){}").unwrap();
+        assert_eq!(std::fs::read(&f).unwrap(), b"fn m(){}", "a stale tail of the longer old content survived");
+        let t_short = age(&f);
+        w.persist_if_changed(&f, b"fn m(){}").unwrap();
+        assert_eq!(mtime(&f), t_short, "re-running after a shrinking write rewrote the file");
+        w.persist_if_changed(&f, b"fn main() { }").unwrap();
         // same length, different content: the checksum must notice
         let t1 = age(&f);
         w.persist_if_changed(&f, b"fn mian() { }").unwrap();
